@@ -341,8 +341,8 @@ def pubkey_of(key):
 def finish_correspondence(ctx, pid, cases, meta, ok, log, check, show, ctype):
     """evaluate the cases in Coq and turn disagreements / broken proofs into violations"""
     ev = lib.CoqEval(["From Model Require Import Jws JwsOracle %sCases." % pid, "From Gen Require Import Tables."],
-                     ctype, check, show, shard=150, max_chars=400000)
-    res = ev.run(cases)
+                     ctype, check, show, shard=100, max_chars=160000)
+    res = ev.run(cases, jobs=8)
     ctx.coverage["traces_validated_against_impl"] = res["evaluated"]
     ctx.coverage["disagreements_checked"] = len(res["failing"])
     direct = len(ctx.violations) + len(ctx.known_hits)
